@@ -20,8 +20,12 @@ with the invariant again).
   `(pot as f32 * (num as f32 / den as f32)) as i16 = ⌊pot·num/den⌋` for every `0 ≤ pot ≤ 2·STACK`
   and every entry of `Odds::GRID` (kernel evaluation of the 201 × 10 table); hence
   `C11_actionize_f32`: the float `actionize` and the integer one agree in every reachable state.
-* `C11_menu_nonempty`, `C11_menu_nodup`, `C11_menu_kinds`, `C11_entry_allowed`,
-  `C11_menu_monotone`, `C11_snap`, `C11_menu_length`, `C11_menu_pack`, `C11_history_pack`.
+* `C11_menu_nonempty`, `C11_menu_nodup`, `C11_menu_kinds` (+ the converse `C11_menu_kinds_exact`),
+  `C11_entry_allowed`, `C11_abstract_closed`, `C11_menu_monotone` (general form `C11_monotone`),
+  `C11_snap` (+ `snap_clamp`), `C11_menu_length`, `C11_menu_pack`, `C11_menu_path_injective`,
+  `C11_history_pack`, `C11_history_too_long`; bundled as `MenuOK` in `C11_menu` / `C11_reachable`;
+  `AbsReach` / `C11_abs_reach` / `C11_abs_reach_menu` for the abstract tree itself;
+  `C11_chance_menu`, `C11_terminal_menu` for the nodes that are not decisions.
 * `C11_grid_*`, `C11_street_tables_in_grid`, `C11_raise_edges_coded`: the grid is in lowest terms
   and strictly sorted; every per-street odds is a member of `GRID`, so `u8::from(Edge::Raise(odds))`
   never hits `expect("invalid odds value")`.
@@ -104,6 +108,16 @@ example : asChips (chipsToF32 20000 * chipsToF32 3) = 32767 ∧
 /-- a decision node in terms of the closing predicates (from `C03_turn`) -/
 theorem decision_of_turn {g : Game} {i : Nat} (ht : turn g = Turn.choice i) :
     isEveryoneAlright g = false := (((RP.C03.C03_turn g).2.2 i).1 ht).1
+
+theorem run?_append (g : Game) (as bs : List Action) :
+    run? g (as ++ bs) = (run? g as).bind (fun g' => run? g' bs) := by
+  induction as generalizing g with
+  | nil => simp [run?]
+  | cons a as ih =>
+    simp only [List.cons_append, run?]
+    cases step? g a with
+    | none => simp
+    | some g1 => simp [ih]
 
 theorem pot_range {g : Game} (h : GameInv g) : 0 ≤ g.pot ∧ g.pot ≤ 2 * STACK := by
   have hc := consts_ok
@@ -404,6 +418,128 @@ theorem C11_reachable {h0 h1 : Nat} (hv : ValidDeal h0 h1) {as : List Action} {g
     MenuOK g n := C11_menu (RP.C03.C03_reachable hv hr) ht n
 
 
+
+/-- **C11, kinds, converse.** The plain kinds are on the menu exactly when the rules permit them;
+raise entries are there exactly when a legal raise size exists and the street's table for this
+raise count is not empty (after `MAX_RAISE_REPEATS` raises in the round it is). -/
+theorem C11_menu_kinds_exact {g : Game} {i : Nat} (h : GameInv g) (ht : turn g = Turn.choice i) (n : Nat) :
+    (Edge.fold ∈ choices g n ↔ KindPermitted g .fold) ∧
+    (Edge.check ∈ choices g n ↔ KindPermitted g .check) ∧
+    (Edge.call ∈ choices g n ↔ KindPermitted g .call) ∧
+    (Edge.shove ∈ choices g n ↔ KindPermitted g .shove) ∧
+    (∀ a b, Edge.raise a b ∈ choices g n ↔ (KindPermitted g .raise ∧ Edge.raise a b ∈ raises g n)) ∧
+    (RP.Gen.MAX_RAISE_REPEATS < n → ∀ a b, Edge.raise a b ∉ choices g n) := by
+  have hna := decision_of_turn ht
+  obtain ⟨_, _, _, _, hk, _, hr, hsv⟩ := choice_view h hna
+  have notraise : ∀ e, e ∈ raises g n → isRaise e = true := fun e he => ((raises_ok g n).2.2 e he).2
+  have hraise : mayRaise g = true ↔ KindPermitted g .raise := by
+    unfold mayRaise; simp only [decide_eq_true_eq]
+    show toRaise g < toShove g ↔ toCall g + max (toCall g) BB ≤ (actor g).stack - 1
+    rw [hr, hsv]; omega
+  refine ⟨?_, ?_, ?_, ?_, ?_, ?_⟩
+  · rw [mem_choices h hna]
+    constructor
+    · rintro (⟨_, x⟩ | ⟨_, x⟩ | ⟨_, x⟩ | ⟨hm, _⟩ | ⟨_, x⟩)
+      · have := notraise _ x; simp [isRaise] at this
+      · cases x
+      · cases x
+      · unfold mayFold at hm; show 0 < toCall g; simpa using hm
+      · cases x
+    · intro hp; right; right; right; left
+      have hp' : 0 < toCall g := hp
+      exact ⟨by unfold mayFold; simpa using hp', rfl⟩
+  · rw [mem_choices h hna]
+    constructor
+    · rintro (⟨_, x⟩ | ⟨_, x⟩ | ⟨_, x⟩ | ⟨_, x⟩ | ⟨hm, _⟩)
+      · have := notraise _ x; simp [isRaise] at this
+      · cases x
+      · cases x
+      · cases x
+      · unfold mayCheck at hm
+        have : effectiveStake g = (actor g).stake := by simpa using hm
+        show toCall g = 0; unfold toCall; omega
+    · intro hp; right; right; right; right
+      refine ⟨?_, rfl⟩
+      unfold mayCheck; simp only [beq_iff_eq]
+      have : toCall g = 0 := hp
+      unfold toCall at this; omega
+  · rw [mem_choices h hna]
+    constructor
+    · rintro (⟨_, x⟩ | ⟨_, x⟩ | ⟨hm, _⟩ | ⟨_, x⟩ | ⟨_, x⟩)
+      · have := notraise _ x; simp [isRaise] at this
+      · cases x
+      · unfold mayCall mayFold at hm
+        simp only [Bool.and_eq_true, decide_eq_true_eq] at hm
+        exact ⟨hm.1, by rw [← hsv]; exact hm.2⟩
+      · cases x
+      · cases x
+    · intro hp; right; right; left
+      refine ⟨?_, rfl⟩
+      have : 0 < toCall g ∧ toCall g < (actor g).stack := hp
+      unfold mayCall mayFold; rw [hsv]
+      simp only [Bool.and_eq_true, decide_eq_true_eq]; exact this
+  · constructor
+    · intro _; exact hk
+    · intro _; exact (C11_menu_nonempty h ht n).1
+  · intro a b
+    rw [mem_choices h hna]
+    constructor
+    · rintro (⟨hm, x⟩ | ⟨_, x⟩ | ⟨_, x⟩ | ⟨_, x⟩ | ⟨_, x⟩)
+      · exact ⟨hraise.1 hm, x⟩
+      all_goals cases x
+    · rintro ⟨hp, x⟩; exact Or.inl ⟨hraise.2 hp, x⟩
+  · intro hlt a b hmem
+    have hmem' : Edge.raise a b ∈ raises g n := by
+      rcases (mem_choices h hna n _).1 hmem with x | ⟨_, x⟩ | ⟨_, x⟩ | ⟨_, x⟩ | ⟨_, x⟩
+      · exact x.2
+      all_goals cases x
+    unfold raises at hmem'
+    simp [hlt] at hmem'
+
+/-- two decisions (or raise counts) with the same packed menu word have the same menu -/
+theorem C11_menu_path_injective {g g' : Game} {i i' : Nat} (h : GameInv g) (ht : turn g = Turn.choice i)
+    (h' : GameInv g') (ht' : turn g' = Turn.choice i') (n n' : Nat)
+    (he : pathOfEdges (choices g n) = pathOfEdges (choices g' n')) : choices g n = choices g' n' := by
+  obtain ⟨p, h1, _, h2⟩ := C11_menu_pack h ht n
+  obtain ⟨q, h3, _, h4⟩ := C11_menu_pack h' ht' n'
+  rw [h1, h3] at he
+  have : p = q := Option.some.inj he
+  subst this; rw [h2] at h4; exact Option.some.inj h4
+
+/-! ## the states reachable under the abstraction -/
+
+/-- the game states of the abstract tree: the root of a valid deal; from a decision, the state
+after the concrete action of any entry of any menu `choices g n`; from a chance node, the state
+after any accepted deal -/
+inductive AbsReach (h0 h1 : Nat) : Game → Prop
+  | root : AbsReach h0 h1 (root h0 h1)
+  | choice {g : Game} {i : Nat} (n deal : Nat) (e : Edge) :
+      AbsReach h0 h1 g → turn g = Turn.choice i → e ∈ choices g n →
+      AbsReach h0 h1 (act g (actionize g deal e))
+  | chance {g : Game} (deal : Nat) :
+      AbsReach h0 h1 g → turn g = Turn.chance → isAllowed g (actionize g deal .draw) = true →
+      AbsReach h0 h1 (act g (actionize g deal .draw))
+
+/-- **C11 on the abstract tree.** Every state reachable under the abstraction satisfies the game
+invariant and is reached without tripping an assertion of `apply`; hence `C11_menu` applies at each
+of its decisions, for every raise count. -/
+theorem C11_abs_reach {h0 h1 : Nat} (hv : ValidDeal h0 h1) {g : Game} (hr : AbsReach h0 h1 g) :
+    GameInv g ∧ ∃ as, run? (root h0 h1) as = some g := by
+  induction hr with
+  | root => exact ⟨inv_root hv, [], rfl⟩
+  | @choice g i n deal e _ ht he ih =>
+    obtain ⟨hinv, as, has⟩ := ih
+    obtain ⟨hs, hi⟩ := C11_abstract_closed hinv ht n deal e he
+    exact ⟨hi, as ++ [actionize g deal e], by rw [run?_append, has]; simp [run?, hs]⟩
+  | @chance g deal _ _ ha ih =>
+    obtain ⟨hinv, as, has⟩ := ih
+    obtain ⟨hs, hi⟩ := (RP.C03.C03_reject _).2 hinv ha
+    exact ⟨hi, as ++ [actionize g deal .draw], by rw [run?_append, has]; simp [run?, hs]⟩
+
+theorem C11_abs_reach_menu {h0 h1 : Nat} (hv : ValidDeal h0 h1) {g : Game} (hr : AbsReach h0 h1 g)
+    {i : Nat} (ht : turn g = Turn.choice i) (n : Nat) : MenuOK g n :=
+  C11_menu (C11_abs_reach hv hr).1 ht n
+
 /-! ## non-vacuity: concrete decisions -/
 
 private def demo (as : List Action) : Option Game := run? (root 0x3 0x30) as
@@ -464,6 +600,13 @@ example : (view [.shove 99] 0, view [.raise 10, .call 9] 0, view [.raise 10, .fo
 example : (demo [.shove 99]).map (fun g =>
     (toRaise g, toShove g, actionize g 0 (.raise 1 4), actionize g 0 (.raise 4 1))) =
     some (196, 98, .raise 196, .shove 98) := by decide
+-- the abstract tree: the 4:1 edge at the root leads to the state after `Raise(12)`, a decision of
+-- the big blind, where the bundled theorem applies again
+example : ∃ g, AbsReach 0x3 0x30 g ∧ demo [.raise 12] = some g ∧ turn g = Turn.choice 0 ∧ MenuOK g 1 := by
+  have h : AbsReach 0x3 0x30 (act (root 0x3 0x30) (actionize (root 0x3 0x30) 0 (.raise 4 1))) :=
+    AbsReach.choice (i := 1) 0 0 (.raise 4 1) AbsReach.root (by decide) (by decide)
+  have ht : turn (act (root 0x3 0x30) (actionize (root 0x3 0x30) 0 (.raise 4 1))) = Turn.choice 0 := by decide
+  exact ⟨_, h, by decide, ht, C11_abs_reach_menu demo_deal h ht 1⟩
 -- packing: sixteen edges use all 64 bits, seventeen are rejected
 example : pathOfEdges (List.replicate 16 Edge.shove) = some 0x5555555555555555 ∧
     pathOfEdges (List.replicate 17 Edge.shove) = none := by decide
